@@ -1191,6 +1191,18 @@ func TestVerifC11Wide(t *testing.T) {
 	c11RunSearch(cfg)
 }
 
+// smalllimit: the chain allows 800 bytes of evidence per block (two duplicate-vote items); the pool may hold more than that, across
+// updates and restarts.
+func TestVerifC11SmallLimit(t *testing.T) {
+	c11EvMaxBytes = 800
+	cfg := c11Config{part: "smalllimit", roots: []int64{8}, maxDepth: 5, quickBudget: 60 * time.Second, thoroughBudget: 10 * time.Minute,
+		only: []string{"dv5/genuine", "dv6/genuine", "dv8/genuine", "dv3/genuine"}}
+	if vr.Thorough() {
+		cfg.roots, cfg.maxDepth = []int64{6, 8}, 6
+	}
+	c11RunSearch(cfg)
+}
+
 // deep: the lifecycle core (genuine items of each kind, a same-hash variant, one invalid representative of each kind), deep.
 func TestVerifC11Deep(t *testing.T) {
 	cfg := c11Config{part: "deep", roots: []int64{4, 5, 8}, maxDepth: 6, quickBudget: 100 * time.Second, thoroughBudget: 18 * time.Minute,
